@@ -42,6 +42,7 @@ Fixpoint seq_history (evs : list ev) : list ev :=
   | EReg ti l ok :: r => HRegStart l ti :: HRegEnd l ti ok :: seq_history r
   | EUnreg ti l :: r => HUnregStart l ti :: HUnregEnd l ti :: seq_history r
   | ERecv l k m pl g :: r => ERecv l k m pl g :: seq_history r
+  | ERelease l :: r => ERelease l :: seq_history r     (* looked at by clause (e) only *)
   | _ :: r => seq_history r
   end.
 
@@ -225,16 +226,81 @@ Definition P_d (h : hist) : bool :=
     | _ => true
     end) h.
 
+(* (e) "to exactly the registered listeners" / "receives nothing ... after
+       unregistration returned", on the callbacks themselves: a listener whose
+       unregistration has returned (and which has not begun to register on the
+       subject again) is not called any more -- except for the one callback the
+       dispatch had already decided when the unregistration came (listener
+       chosen, mutex released: C20_nothing_after_unregister).  What a history
+       shows of "already decided": callbacks of one message are made one after
+       the other by one goroutine, which decides on the next listener after the
+       previous callback returned.  A callback that the harness holds (gated;
+       it returns after the next ERelease of its listener) and that was running
+       when the unregistration returned therefore rules the exception out: the
+       decision came after its return, hence after the unregistration.
+       Histories without held callbacks (the concurrent runs) satisfy (e)
+       trivially; (c) bounds them by the publication time. *)
+Fixpoint release_after (h : hist) (l : N) (t : nat) : option nat :=
+  match h with
+  | [] => None
+  | (t', ERelease l') :: r => if N.eqb l l' && (t <? t') then Some t' else release_after r l t
+  | _ :: r => release_after r l t
+  end.
+
+(* the dispatch of m was inside a callback it could not leave at time u *)
+Definition dispatch_held (h : hist) (m : N) (u : nat) : bool :=
+  existsb (fun e => match snd e with
+                    | ERecv l' _ m' _ true =>
+                        N.eqb m m' && (fst e <? u) &&
+                        match release_after h l' (fst e) with Some tr => u <? tr | None => true end
+                    | _ => false
+                    end) h.
+
+Fixpoint last_opt {A} (l : list A) : option A :=
+  match l with [] => None | [a] => Some a | _ :: r => last_opt r end.
+
+Definition P_e (h : hist) : bool :=
+  forallb (fun e =>
+    match snd e with
+    | ERecv l _ m _ _ =>
+        match pub_start h m with
+        | Some (ti, _, _) =>
+            (* the last registration of l on the subject that began before the callback *)
+            match last_opt (filter (fun iv => match iv with (rs, _, _, _) => rs <? fst e end) (intervals h l ti)) with
+            | Some (_, _, _, Some ue) =>
+                (* still unregistering at the time of the callback, or: the unregistration did
+                   not return while the dispatch of m was held in a callback *)
+                (fst e <? ue) || negb (dispatch_held h m ue)
+            | _ => true         (* registered or registering; never registered: (c) *)
+            end
+        | None => true          (* (c) *)
+        end
+    | _ => true
+    end) h.
+
+(* "no message is received twice" alone (the first half of (a)) *)
+Definition P_once (h : hist) : bool :=
+  forallb (fun l => forallb (fun m => count_recv h l m <=? 1) (published h)) (listeners_of h).
+
 (* the history is one the checker is meant for *)
 Definition hist_wf (h : hist) : bool :=
   forallb (fun l => forallb (fun ti => alternates h l ti 0) (subjects_of h)) (listeners_of h).
 
-Definition P_C20 (kinds : nat -> N) (h : hist) : bool := P_a h && P_b h && P_c kinds h && P_d h.
+Definition P_C20 (kinds : nat -> N) (h : hist) : bool := P_a h && P_b h && P_c kinds h && P_d h && P_e h.
 
 (* which clause fails first: 0 = none *)
 Definition P_C20_clause (kinds : nat -> N) (h : hist) : N :=
   if negb (P_a h) then 1 else if negb (P_b h) then 2 else if negb (P_c kinds h) then 3
-  else if negb (P_d h) then 4 else 0.
+  else if negb (P_d h) then 4 else if negb (P_e h) then 5 else 0.
+
+(* P_C20 without "receives every message" (the second half of (a)): what holds of
+   EVERY history, also of those that unregister a listener while messages for it
+   are on their way (known finding C20/unregister/pending-lost: those are lost) *)
+Definition P_C20_safety (kinds : nat -> N) (h : hist) : bool :=
+  P_once h && P_b h && P_c kinds h && P_d h && P_e h.
+Definition P_C20_safety_clause (kinds : nat -> N) (h : hist) : N :=
+  if negb (P_once h) then 1 else if negb (P_b h) then 2 else if negb (P_c kinds h) then 3
+  else if negb (P_d h) then 4 else if negb (P_e h) then 5 else 0.
 
 (* ======================================================================== *)
 (* replaying a sequential script on the model                                 *)
@@ -259,8 +325,39 @@ Definition is_blocked (b : list (nat * N)) (j : nat) : bool := existsb (fun p =>
 Fixpoint first_some {A} (f : nat -> option A) (js : list nat) : option A :=
   match js with [] => None | j :: r => match f j with Some a => Some a | None => first_some f r end end.
 
+(* What the replay may look at: the callbacks the log still holds, as (listener,
+   message).  The one place where the model's choice cannot be read off the past
+   of the log is a snapshot entry that is not a member of the listeners any more
+   (unregistered since the snapshot was taken): the real loop visits the snapshot
+   in an order of its own; it has dropped such an entry silently if it came to
+   it already, and has not if the entry is still ahead -- in which case a
+   registration of the same listener that comes in time makes it a member again,
+   and it is called ([Pick j l] with l a member: allowed by Bus.v at any time
+   while l is in the snapshot).  Nothing observable distinguishes the two until
+   that callback is logged.  The replay resolves the choice by that callback:
+     - the log still holds a callback (l, m): the entry stays (the skip, if any,
+       is a later [Pick] of the same run);
+     - it does not: the entry is dropped now ([Pick j l] with l not a member).
+   Either way the replay only ever applies [step] with an op that is [enabled]:
+   every accepted log is a run of the model (replay_ops below returns the op
+   list; props/C20.v: C20_replay_is_run).  Completeness: an entry that is never
+   called for m again is dropped by every run of the model that ends the
+   dispatch of m, and dropping it earlier changes nothing any other op looks at;
+   an entry that is called again must have stayed. *)
+Definition fut := list (N * N).
+
+Fixpoint future_recvs (evs : list ev) : fut :=
+  match evs with
+  | [] => []
+  | ERecv l _ m _ _ :: r => (l, m) :: future_recvs r
+  | _ :: r => future_recvs r
+  end.
+
+Definition in_fut (f : fut) (l m : N) : bool :=
+  existsb (fun p => N.eqb (fst p) l && N.eqb (snd p) m) f.
+
 (* one eager internal step, if any *)
-Definition eager (t : st) (b : list (nat * N)) : option op :=
+Definition eager (f : fut) (t : st) (b : list (nat * N)) : option op :=
   if enabled t Dispatch then Some Dispatch else
   match disp t with
   | Some (_, _, j :: _) => Some (Send j)
@@ -273,9 +370,10 @@ Definition eager (t : st) (b : list (nat * N)) : option op :=
         match nth_error (subs t) j with
         | Some x =>
             match infl x, cur x with
-            | Some (_, vis), None =>
-                (* snapshot entries that were unregistered meanwhile are skipped silently *)
-                match filter (fun l => negb (memb l (ls x))) vis with
+            | Some (m, vis), None =>
+                (* snapshot entries that were unregistered meanwhile are skipped silently,
+                   unless the log shows that they were still ahead when they came back *)
+                match filter (fun l => negb (memb l (ls x)) && negb (in_fut f l m)) vis with
                 | l :: _ => Some (Pick j l)
                 | [] => None
                 end
@@ -285,11 +383,17 @@ Definition eager (t : st) (b : list (nat * N)) : option op :=
         end) (seq 0 (List.length (subs t)))
   end.
 
-Fixpoint settle (fuel : nat) (t : st) (b : list (nat * N)) : st :=
+(* the eager steps, and the state they lead to *)
+Fixpoint settle_ops (fuel : nat) (f : fut) (t : st) (b : list (nat * N)) : list op * st :=
   match fuel with
-  | O => t
-  | S f => match eager t b with Some o => settle f (step t o) b | None => t end
+  | O => ([], t)
+  | S n => match eager f t b with
+           | Some o => let '(os, t') := settle_ops n f (step t o) b in (o :: os, t')
+           | None => ([], t)
+           end
   end.
+
+Definition settle (fuel : nat) (f : fut) (t : st) (b : list (nat * N)) : st := snd (settle_ops fuel f t b).
 
 Definition settle_fuel (t : st) : nat :=
   20 + 4 * List.length (q t) * (1 + List.length (subs t)) +
@@ -298,11 +402,13 @@ Definition settle_fuel (t : st) : nat :=
              0 (subs t) * 2 + 4 * List.length (subs t).
 
 (* a generous bound; the judge also checks that nothing is left to do *)
-Definition settled (t : st) (b : list (nat * N)) : st := settle (200 + 8 * settle_fuel t) t b.
+Definition settled_ops (f : fut) (t : st) (b : list (nat * N)) : list op * st :=
+  settle_ops (200 + 8 * settle_fuel t) f t b.
+Definition settled (f : fut) (t : st) (b : list (nat * N)) : st := snd (settled_ops f t b).
 
 (* quiescence of the implementation = nothing left to do in the model *)
-Definition quiescent (t : st) (b : list (nat * N)) : bool :=
-  match eager t b with Some _ => false | None => true end &&
+Definition quiescent (f : fut) (t : st) (b : list (nat * N)) : bool :=
+  match eager f t b with Some _ => false | None => true end &&
   forallb (fun j => is_blocked b j ||
                     match nth_error (subs t) j with
                     | Some x => match infl x with None => true | Some _ => false end
@@ -340,46 +446,74 @@ Definition find_pick (t : st) (b : list (nat * N)) (k l m : N) : option nat :=
     | None => None
     end) (seq 0 (List.length (subs t))).
 
-(* one logged event; None = the model cannot follow the implementation *)
-Definition replay_ev (tb : tgt_table) (r : rstate) (e : ev) : option rstate :=
-  let t := settled (r_st r) (r_blocked r) in
+(* one logged event, the events after it (only their callbacks are looked at);
+   None = the model cannot follow the implementation.  Besides the new state: the
+   ops of the model that were applied, in order. *)
+Definition replay_ev_ops (tb : tgt_table) (r : rstate) (e : ev) (rest : list ev) : option (list op * rstate) :=
   let b := r_blocked r in
+  (* the callbacks still to come, this event included *)
+  let f := future_recvs (e :: rest) in
+  let '(os, t) := settled_ops f (r_st r) b in
   match e with
   | ERecv l k m pl gated =>
       match find_pick t b k l m with
       | Some j =>
           let t' := step (step t (Pick j l)) (Call j) in
           if existsb (fun p => N.eqb (fst p) m && N.eqb (snd p) pl) (r_pl r)
-          then Some (mkR t' (if gated then (j, l) :: b else b) (r_pl r))
+          then Some (os ++ [Pick j l; Call j], mkR t' (if gated then (j, l) :: b else b) (r_pl r))
           else None
       | None => None
       end
   | _ =>
-      if negb (quiescent t b) then None else
+      if negb (quiescent f t b) then None else
       match e with
       | EPub ti m pl ok =>
           let o := Publish (tgt tb ti) m in
-          if Bool.eqb (res_ok (result t o)) ok then Some (mkR (step t o) b ((m, pl) :: r_pl r)) else None
+          if Bool.eqb (res_ok (result t o)) ok then Some (os ++ [o], mkR (step t o) b ((m, pl) :: r_pl r)) else None
       | EReg ti l ok =>
           let o := Register (tgt tb ti) l in
-          if Bool.eqb (res_ok (result t o)) ok then Some (mkR (step (step t o) RegFinish) b (r_pl r)) else None
-      | EUnreg ti l => Some (mkR (step t (Unregister (tgt tb ti) l)) b (r_pl r))
-      | ERelease l => Some (mkR t (filter (fun p => negb (N.eqb (snd p) l)) b) (r_pl r))
-      | EDigest d lb => if digest_ok tb t d lb then Some (mkR t b (r_pl r)) else None
+          if Bool.eqb (res_ok (result t o)) ok then Some (os ++ [o; RegFinish], mkR (step (step t o) RegFinish) b (r_pl r)) else None
+      | EUnreg ti l => let o := Unregister (tgt tb ti) l in Some (os ++ [o], mkR (step t o) b (r_pl r))
+      | ERelease l => Some (os, mkR t (filter (fun p => negb (N.eqb (snd p) l)) b) (r_pl r))
+      | EDigest d lb => if digest_ok tb t d lb then Some (os, mkR t b (r_pl r)) else None
       | _ => None
       end
   end.
 
+Definition replay_ev (tb : tgt_table) (r : rstate) (e : ev) (rest : list ev) : option rstate :=
+  option_map snd (replay_ev_ops tb r e rest).
+
 Fixpoint replay (tb : tgt_table) (i : N) (r : rstate) (evs : list ev) : option N :=
   match evs with
-  | [] => let t := settled (r_st r) (r_blocked r) in
-          if quiescent t (r_blocked r) then None else Some i
+  | [] => let t := settled [] (r_st r) (r_blocked r) in
+          if quiescent [] t (r_blocked r) then None else Some i
   | e :: rest =>
-      match replay_ev tb r e with
+      match replay_ev tb r e rest with
       | Some r' => replay tb (N.succ i) r' rest
       | None => Some i
       end
   end.
+
+(* the same, returning the run of the model that follows the log (None = it cannot) *)
+Fixpoint replay_ops (tb : tgt_table) (r : rstate) (evs : list ev) : option (list op * st) :=
+  match evs with
+  | [] => let '(os, t) := settled_ops [] (r_st r) (r_blocked r) in
+          if quiescent [] t (r_blocked r) then Some (os, t) else None
+  | e :: rest =>
+      match replay_ev_ops tb r e rest with
+      | Some (os, r') =>
+          match replay_ops tb r' rest with
+          | Some (os', t) => Some (os ++ os', t)
+          | None => None
+          end
+      | None => None
+      end
+  end.
+
+(* the callbacks of a log, as the model records them; the subscriber is what the
+   log does not show *)
+Definition logged_callbacks (evs : list ev) : list (lid * msg) := future_recvs evs.
+Definition model_callbacks (t : st) : list (lid * msg) := map (fun c => (snd (fst c), snd c)) (dlog t).
 
 (* ======================================================================== *)
 (* cases                                                                      *)
@@ -396,7 +530,11 @@ Fixpoint replay (tb : tgt_table) (i : N) (r : rstate) (evs : list ev) : option N
            condition of C20_subject_inj and that no two entries denote the
            same subject of the property (pool_ok, code 5 otherwise).
            props/C20.v: pool_wf is wf_target, and in a table that passes the
-           model's subjects are pairwise different (C20_pool_subjects_distinct). *)
+           model's subjects are pairwise different (C20_pool_subjects_distinct).
+   mode 4: mode 0 + the clauses of P_C20 that hold of every history (P_C20_safety:
+           at most once, order, foreign / after unregistration (c) and (e),
+           unmodified) -- scripts with held callbacks in which anything goes,
+           unregistrations with messages on their way included *)
 Definition pool_wf (t : target) : bool :=
   match tkind t with
   | KSession => true
@@ -437,7 +575,7 @@ Definition judge (c : case) : list (N * N * N) :=
   let kinds := fun ti => kind_code (tkind (tgt tb ti)) in
   (match key_mismatch 0 tb with Some i => [(id, 3%N, i)] | None => [] end) ++
   (match mode with
-   | 0%N | 1%N | 3%N => match replay tb 0 (mkR init [] []) evs with Some i => [(id, 1%N, i)] | None => [] end
+   | 0%N | 1%N | 3%N | 4%N => match replay tb 0 (mkR init [] []) evs with Some i => [(id, 1%N, i)] | None => [] end
    | _ => []
    end) ++
   (match mode with
@@ -451,6 +589,9 @@ Definition judge (c : case) : list (N * N * N) :=
    | 2%N => let h := index evs in
             if negb (hist_wf h) then [(id, 4%N, 0%N)]
             else if P_C20 kinds h then [] else [(id, 2%N, P_C20_clause kinds h)]
+   | 4%N => let h := index (seq_history evs) in
+            if negb (hist_wf h) then [(id, 4%N, 0%N)]
+            else if P_C20_safety kinds h then [] else [(id, 2%N, P_C20_safety_clause kinds h)]
    | _ => []
    end).
 
